@@ -90,6 +90,9 @@ fn fn_src(f: &str) -> String {
         "pair" => "\\x -> [x, x]".into(),
         "lenf" => "\\x -> len(x)".into(),
         "const" => format!("\\x -> {}", int_src(&c)),
+        "stopge" => format!("\\x -> if (x < {}) x + 1 else break", int_src(&c)),
+        "failge" => format!("\\x -> if (x < {}) x + 1 else throw \"boom\"", int_src(&c)),
+        "mfail" => format!("\\x -> if (x == {}) throw \"boom\" else x + 1", int_src(&c)),
         _ => "\\x -> x".into(),
     }
 }
@@ -104,10 +107,15 @@ fn pred_src(p: &str) -> String {
         "ff" => "\\x -> 0".into(),
         "lenlt" => format!("\\x -> len(x) < {}", int_src(&c)),
         "evenlen" => "\\x -> len(x) % 2 == 0".into(),
+        "pfail" => format!("\\x -> if (x == {}) throw \"boom\" else x % 2 == 0", int_src(&c)),
         _ => "\\x -> 0".into(),
     }
 }
 fn fn2_src(f: &str, n: usize) -> Option<String> {
+    if let Some(c) = f.strip_prefix("zfail:") {
+        let c: BigInt = c.parse().unwrap_or_else(|_| BigInt::zero());
+        return Some(format!("(\\a, b -> if (a == {}) throw \"boom\" else a + b)", int_src(&c)));
+    }
     match (f, n) {
         ("none", _) => None,
         ("plus", 2) => Some("+".into()),
@@ -231,6 +239,30 @@ impl SE {
         }
     }
     fn info(&self) -> Info {
+        let mut i = self.info0();
+        if self.has_partial() {
+            i.partial = true;
+            if !i.finite || i.huge {
+                i.len = 5;
+            }
+            i.finite = true;
+            i.huge = false;
+            i.exact = false;
+            i.rev_stream = false;
+        }
+        i
+    }
+    fn has_partial(&self) -> bool {
+        let pn = |f: &str| ["stopge", "failge", "mfail", "pfail", "zfail"].iter().any(|p| f.starts_with(p));
+        match self {
+            SE::Iterate(f, _) => pn(f),
+            SE::Map(f, e) | SE::Filter(f, e) | SE::DropWhile(f, e) => pn(f) || e.has_partial(),
+            SE::Zip(f, es) => pn(f) || es.iter().any(|e| e.has_partial()),
+            SE::DropS(_, e, _) | SE::RevS(e) => e.has_partial(),
+            _ => false,
+        }
+    }
+    fn info0(&self) -> Info {
         match self {
             SE::Til(a, b, c, _) => range_info(a, b, c.as_ref().unwrap_or(&BigInt::from(1))),
             SE::To(a, b, c, _) => {
@@ -304,6 +336,7 @@ impl SE {
                     huge: infos.iter().filter(|i| i.finite).all(|i| i.huge) && finite,
                     bad: infos.iter().any(|i| i.bad),
                     rev_stream: false,
+                    partial: false,
                 }
             }
             SE::DropS(n, e, _) => {
@@ -355,16 +388,19 @@ struct Info {
     bad: bool,
     /// `reversed` is overridden and yields a stream (repeat, cycle)
     rev_stream: bool,
+    /// driven by a function that stops or raises at some element: the item stream ends or reaches
+    /// an error after a few elements, so every observation terminates
+    partial: bool,
 }
 impl Info {
     fn fin(len: usize, ints: bool, len_override: bool) -> Info {
-        Info { finite: true, len, ints, exact: true, len_override, huge: false, bad: false, rev_stream: false }
+        Info { finite: true, len, ints, exact: true, len_override, huge: false, bad: false, rev_stream: false, partial: false }
     }
     fn inf(ints: bool, len_override: bool) -> Info {
-        Info { finite: false, len: 0, ints, exact: true, len_override, huge: false, bad: false, rev_stream: false }
+        Info { finite: false, len: 0, ints, exact: true, len_override, huge: false, bad: false, rev_stream: false, partial: false }
     }
     fn bad() -> Info {
-        Info { finite: true, len: 0, ints: true, exact: true, len_override: true, huge: false, bad: true, rev_stream: false }
+        Info { finite: true, len: 0, ints: true, exact: true, len_override: true, huge: false, bad: true, rev_stream: false, partial: false }
     }
 }
 fn range_info(a: &BigInt, e: &BigInt, c: &BigInt) -> Info {
@@ -380,7 +416,7 @@ fn range_info(a: &BigInt, e: &BigInt, c: &BigInt) -> Info {
     };
     match cnt.to_usize() {
         Some(n) if n <= 200 => Info::fin(n, true, true),
-        _ => Info { finite: true, len: 1000, ints: true, exact: false, len_override: true, huge: true, bad: false, rev_stream: false },
+        _ => Info { finite: true, len: 1000, ints: true, exact: false, len_override: true, huge: true, bad: false, rev_stream: false, partial: false },
     }
 }
 
@@ -768,6 +804,111 @@ fn gen_expr(rng: &mut Rng, edges: &[BigInt], depth: u32) -> SE {
     } else {
         e
     }
+}
+
+
+// ---------------------------------------------------------------------------------------------
+// streams driven by PARTIAL functions: the step function of `iterate` stops (`break`) or raises
+// after k steps, the function of lazy_map / lazy_filter / lazy_zip raises at one element.
+// By construction every such stream ends or reaches its error after a few elements.
+fn small_int_stream(rng: &mut Rng) -> (SE, Vec<i64>) {
+    // a stream of integers and its first elements
+    match rng.below(4) {
+        0 => {
+            let a = rng.range(-3, 3);
+            let n = rng.range(0, 6);
+            (SE::Til(BigInt::from(a), BigInt::from(a + n), None, 0), (a..a + n).collect())
+        }
+        1 => {
+            let n = rng.below(6) as i64;
+            let l: Vec<i64> = (0..n).map(|_| rng.range(-4, 6)).collect();
+            (SE::Wrap(l.iter().map(|x| vi(*x)).collect(), 0), l)
+        }
+        2 => {
+            let a = rng.range(-3, 3);
+            (SE::Iota(BigInt::from(a)), (a..a + 6).collect())
+        }
+        _ => {
+            let (e, els) = partial_iterate(rng);
+            (e, els)
+        }
+    }
+}
+fn partial_iterate(rng: &mut Rng) -> (SE, Vec<i64>) {
+    let v = rng.range(-3, 3);
+    let k = rng.range(-1, 4);
+    let c = v + k;
+    let name = if rng.chance(1, 2) { "stopge" } else { "failge" };
+    let els: Vec<i64> = (v..=v.max(c)).collect();
+    (SE::Iterate(format!("{}:{}", name, c), vi(v)), els)
+}
+fn pick_hit(rng: &mut Rng, els: &[i64], may_miss: bool) -> i64 {
+    if els.is_empty() || (may_miss && rng.chance(1, 5)) {
+        if may_miss { 77 } else { 0 }
+    } else {
+        els[rng.below(els.len().min(5) as u64) as usize]
+    }
+}
+fn gen_partial(rng: &mut Rng) -> SE {
+    let mut e = match rng.below(8) {
+        0 | 1 | 2 => partial_iterate(rng).0,
+        3 | 4 => {
+            let (inner, els) = small_int_stream(rng);
+            let miss_ok = inner.info().finite;
+            SE::Map(format!("mfail:{}", pick_hit(rng, &els, miss_ok)), Box::new(inner))
+        }
+        5 | 6 => {
+            let (inner, els) = small_int_stream(rng);
+            let miss_ok = inner.info().finite;
+            SE::Filter(format!("pfail:{}", pick_hit(rng, &els, miss_ok)), Box::new(inner))
+        }
+        _ => {
+            let (a, els) = small_int_stream(rng);
+            let (b, _) = small_int_stream(rng);
+            let miss_ok = a.info().finite || b.info().finite;
+            SE::Zip(format!("zfail:{}", pick_hit(rng, &els, miss_ok)), vec![a, b])
+        }
+    };
+    // something on top: a position, a total or partial adaptor, a drop with a predicate
+    for _ in 0..rng.below(3) {
+        e = match rng.below(7) {
+            0 | 1 => SE::DropS(rng.below(7) as usize, Box::new(e), rng.below(2) as u8),
+            2 => SE::Map(rng.pick(&["add:1", "mul:2", "neg", "add:-3", "const:2"]).to_string(), Box::new(e)),
+            3 => SE::Filter(rng.pick(&["even", "tt", "ff", "gt:0", "ne:2"]).to_string(), Box::new(e)),
+            4 => SE::DropWhile(format!("lt:{}", rng.range(-2, 6)), Box::new(e)),
+            5 => SE::Map(format!("mfail:{}", rng.range(-3, 6)), Box::new(e)),
+            _ => SE::Filter(format!("pfail:{}", rng.range(-3, 6)), Box::new(e)),
+        };
+    }
+    e
+}
+/// every step function (stop / raise after k = -1..4 steps) from a few seeds, every drop position
+fn sweep_partial() -> Vec<SE> {
+    let mut v = vec![];
+    for seed in [-1i64, 0, 2] {
+        for k in -1i64..=4 {
+            for name in ["stopge", "failge"] {
+                let base = SE::Iterate(format!("{}:{}", name, seed + k), vi(seed));
+                for d in 0..=(k.max(0) as usize + 2) {
+                    let e = if d == 0 { base.clone() } else { SE::DropS(d, Box::new(base.clone()), (d % 2) as u8) };
+                    v.push(e.clone());
+                    if d <= 1 {
+                        v.push(SE::Map("mul:2".into(), Box::new(e.clone())));
+                        v.push(SE::Filter("even".into(), Box::new(e.clone())));
+                        v.push(SE::DropWhile(format!("lt:{}", seed + k), Box::new(e.clone())));
+                    }
+                }
+            }
+        }
+    }
+    for c in 0i64..=6 {
+        let r = SE::To(BigInt::from(1), BigInt::from(5), None, 0);
+        v.push(SE::Map(format!("mfail:{}", c), Box::new(r.clone())));
+        v.push(SE::Filter(format!("pfail:{}", c), Box::new(r.clone())));
+        v.push(SE::Zip(format!("zfail:{}", c), vec![r.clone(), SE::Iota(BigInt::from(0))]));
+        v.push(SE::Map(format!("mfail:{}", c), Box::new(SE::Iota(BigInt::from(c - 3)))));
+    }
+    v
 }
 
 /// exhaustive small sweep: every constructor with all small parameter combinations
@@ -1170,6 +1311,15 @@ fn main() {
         let e = gen_expr(&mut rng, &edges, 3);
         cases.push(make_case(&mut rng, e, nobs, &mut uniq));
     }
+    // function-driven streams with partial functions
+    for e in sweep_partial() {
+        cases.push(make_case(&mut rng, e, if thorough { 12 } else { 9 }, &mut uniq));
+    }
+    let n_partial = if thorough { 25_000 } else { 1_500 };
+    for _ in 0..n_partial {
+        let e = gen_partial(&mut rng);
+        cases.push(make_case(&mut rng, e, nobs, &mut uniq));
+    }
 
     // the real interpreter
     let mut lines: Vec<(String, String)> = vec![];
@@ -1211,6 +1361,7 @@ fn main() {
             Some(_) => format!("{}~derived", c.expr.class()),
             None => c.expr.class(),
         };
+        let class = if c.info.partial { format!("partial:{}", class) } else { class };
         let decl = real.get(&format!("{}.d", ci));
         let decl_class = decl.map(|x| x.0.clone()).unwrap_or("missing".into());
         let rust = if decl_class != "ok 0" {
